@@ -12,6 +12,8 @@
      C03_flat_refs_resolvable / C03_named_flat_refs_resolvable — in the flat layout of a closed graph (C05: merge_models
        keeps graphs closed) every model reference in a field targets exactly one placed class, which has a unique,
        non-empty name: exactly one class per model and every reference resolvable.
+   PART 3 (field order, proofs in Proofs/EmitProps.v): the emitted class lists every field exactly once, all required
+   fields before all optional ones (what dataclasses / attrs demand: no field without a default after one with a default).
    NOT PROVED: that the emitted text executes (CPython, the frameworks): the emitter is tied byte for byte by X-emit and
    loading is judged by CPython in the oracle; nested-layout scoping of quoted references is oracle-only. *)
 From Coq Require Import List Bool Arith NArith String.
@@ -133,4 +135,29 @@ Theorem C03_named_flat_refs_resolvable :
            m_name m' = Some n' /\
            n' <> nil /\ (forall m'' : model, In m'' (ms g') -> m_idx m'' = i -> m'' = m'))).
 Proof. exact NamesProps.named_flat_refs_resolvable. Qed.
+
+(* ---- PART 3: field order ---- *)
+From Coq Require Import Permutation.
+From J2M.Proofs Require Import EmitProps.
+
+Theorem C03_sort_fields_perm :
+  forall (uf : bool) (fs : fields),
+       Permutation (fst (sort_fields uf fs) ++ snd (sort_fields uf fs)) (map fst fs).
+Proof. exact EmitProps.sort_fields_perm. Qed.
+
+Theorem C03_sort_fields_required :
+  forall (uf : bool) (fs : fields) (k : str),
+       In k (fst (sort_fields uf fs)) -> exists t : ty, In (k, t) fs /\ is_opt t = false.
+Proof. exact EmitProps.sort_fields_required. Qed.
+
+Theorem C03_sort_fields_optional :
+  forall (uf : bool) (fs : fields) (k : str),
+       In k (snd (sort_fields uf fs)) -> exists t : ty, In (k, t) fs /\ is_opt t = true.
+Proof. exact EmitProps.sort_fields_optional. Qed.
+
+Theorem C03_sort_fields_stable :
+  forall fs : fields,
+       fst (sort_fields false fs) = map fst (filter (fun kt : str * ty => negb (is_opt (snd kt))) fs) /\
+       snd (sort_fields false fs) = map fst (filter (fun kt : str * ty => is_opt (snd kt)) fs).
+Proof. exact EmitProps.sort_fields_stable. Qed.
 
